@@ -64,4 +64,19 @@ def mData (m : MSt) (H : Name → Nat) (f : FaceId) (d : Data) (tokThread : Opti
      | some s => (onData s f d).2
      | none => [])
 
+/-- operations of the multi-thread forwarder -/
+inductive MOp
+  | cfg (op : Op)                                  -- configuration / timer operation, on every thread
+  | interest (f : FaceId) (i : Interest) (tie : List FaceId) (pick : Nat)
+  | data (f : FaceId) (d : Data) (tokThread : Option Nat)
+
+def mstep (H : Name → Nat) (m : MSt) : MOp → MSt × List Send
+  | .cfg (.interest ..) => (m, [])
+  | .cfg (.data ..) => (m, [])
+  | .cfg op => (mAll m op, [])
+  | .interest f i tie pick => mInterest m H f i tie pick
+  | .data f d tokThread => mData m H f d tokThread
+
+def mrun (H : Name → Nat) (m : MSt) (ops : List MOp) : MSt := ops.foldl (fun m op => (mstep H m op).1) m
+
 end Ndn.Fw
